@@ -73,7 +73,7 @@ def tree_hash():
                 h.update(f.read())
             h.update(b'\0')
         # the machinery itself is part of the key: a changed corpus or driver must rebuild
-        for p in (os.path.join(TOOLS, 'nv', 'corpus.py'), os.path.join(TOOLS, 'numir', 'src', 'main.rs'),
+        for p in (os.path.join(TOOLS, 'nv', 'corpus.py'), os.path.join(TOOLS, 'nv', 'build.py'), os.path.join(TOOLS, 'numir', 'src', 'main.rs'),
                   os.path.join(TOOLS, 'nusyn', 'src', 'main.rs')):
             if os.path.exists(p):
                 with open(p, 'rb') as f:
@@ -82,9 +82,24 @@ def tree_hash():
     return _hash[0]
 
 
+def evict_cache(keep=5):
+    """keep only the most recently used tree states (disk space)"""
+    try:
+        ents = [(os.path.getmtime(os.path.join(CACHE, e)), e) for e in os.listdir(CACHE)]
+    except OSError:
+        return
+    ents.sort(reverse=True)
+    for _, e in ents[keep:]:
+        if e != tree_hash():
+            shutil.rmtree(os.path.join(CACHE, e), ignore_errors=True)
+
+
 def cache_dir(tier):
     d = os.path.join(CACHE, tree_hash(), tier)
-    os.makedirs(d, exist_ok=True)
+    if not os.path.isdir(d):
+        os.makedirs(d, exist_ok=True)
+        evict_cache()
+    os.utime(os.path.join(CACHE, tree_hash()))
     return d
 
 
@@ -155,13 +170,53 @@ def run(cmd, cwd, env, what, timeout=3600):
     return p
 
 
+def _cargo_check_json(ws, env, members=None):
+    """cargo check with JSON diagnostics; returns (returncode, [ (crate_rel_file, line, code, message) ], raw tail)"""
+    cmd = ['cargo', '+nightly', 'check', '--offline', '-j', '16', '--message-format=json', '--keep-going']
+    if members:
+        for m in members:
+            cmd += ['-p', m]
+    else:
+        cmd.append('--workspace')
+    p = subprocess.run(cmd, cwd=ws, env=env, stdout=subprocess.PIPE, stderr=subprocess.PIPE, text=True)
+    errs = []
+    for line in p.stdout.split('\n'):
+        if not line.startswith('{'):
+            continue
+        try:
+            m = json.loads(line)
+        except ValueError:
+            continue
+        if m.get('reason') != 'compiler-message':
+            continue
+        msg = m['message']
+        if msg.get('level') != 'error':
+            continue
+        spans = [sp for sp in msg.get('spans', []) if sp.get('is_primary')] or msg.get('spans', [])
+        # follow macro expansion back to the invocation site in the corpus file
+        for sp in spans:
+            cur = sp
+            while cur.get('expansion') and cur['expansion'].get('span'):
+                cur = cur['expansion']['span']
+            errs.append((cur['file_name'], cur['line_start'], (msg.get('code') or {}).get('code'), msg['message'][:300]))
+        if not spans:
+            errs.append((None, None, (msg.get('code') or {}).get('code'), msg['message'][:300]))
+    return p.returncode, errs, p.stderr[-4000:]
+
+
+def seed():
+    return int(os.environ.get('VERIF_SEED', '0'))
+
+
 def mir_facts(tier):
     """Build (or fetch from cache) the MIR fact files of the corpus. Returns
-    (crates dict, {crate_name: facts_path}, info)."""
-    crates = corpus.build(tier, int(os.environ.get('VERIF_SEED', '0')) if tier == 'thorough' else 0)
+    (crates dict, {crate_name: facts_path}, info). Declarations the current tree refuses to
+    compile are dropped from the corpus (and listed in info['dropped']) so that the remaining
+    declarations can still be analysed."""
+    crates = corpus.build(tier, seed() if tier == 'thorough' else 0)
     for c in crates.values():
         corpus.crate_source(c)   # fills line numbers / closure positions of every declaration
-    cd = cache_dir(tier)
+    cd = cache_dir(tier if tier != 'thorough' else f'thorough-{seed()}')
     with Lock(os.path.join(cd, '.lock')):
         marker = os.path.join(cd, 'mir.ok')
         if not os.path.exists(marker):
@@ -175,42 +230,90 @@ def mir_facts(tier):
                 'RUSTC_WORKSPACE_WRAPPER': NUMIR,
                 'NUMIR_OUT': out,
             })
-            procs = []
             groups = {'wsfull': {n: c for n, c in crates.items() if c['std']},
                       'wsnostd': {n: c for n, c in crates.items() if not c['std']}}
-            for g, cs in groups.items():
+            dropped = []
+            fatal = {}
+
+            def build_group(g, cs):
                 ws = os.path.join(sc, g)
                 make_workspace(ws, cs)
                 e = dict(env)
                 e['CARGO_TARGET_DIR'] = os.path.join(sc, g + '-target')
-                procs.append((g, subprocess.Popen(['cargo', '+nightly', 'check', '--offline', '--workspace', '-j', '16'],
-                                                  cwd=ws, env=e, stdout=subprocess.PIPE, stderr=subprocess.STDOUT, text=True)))
-            fails = {}
-            for g, p in procs:
-                o, _ = p.communicate()
-                with open(os.path.join(cd, f'cargo-{g}.log'), 'w') as f:
-                    f.write(o)
-                if p.returncode != 0:
-                    fails[g] = o
+                todo = None
+                for attempt in range(4):
+                    rc, errs, tail = _cargo_check_json(ws, e, todo)
+                    if rc == 0:
+                        return
+                    # map errors to declarations
+                    bad = {}
+                    unmapped = []
+                    for (fn, ln, code, msg) in errs:
+                        hit = False
+                        if fn:
+                            cn = fn.split('/')[0]
+                            c = cs.get(cn)
+                            if c is not None:
+                                for d in c['decls']:
+                                    if d['line'] <= ln <= d['end_line'] + 1:
+                                        bad.setdefault(cn, {}).setdefault(d['name'], []).append(f'{code}: {msg}')
+                                        hit = True
+                        if not hit:
+                            unmapped.append(f'{fn}:{ln}: {code}: {msg}')
+                    if not bad:
+                        fatal[g] = '\n'.join(unmapped[:20]) + '\n' + tail
+                        return
+                    for cn, names in bad.items():
+                        c = cs[cn]
+                        for d in c['decls']:
+                            if d['name'] in names:
+                                dropped.append({'crate': cn, 'name': d['name'], 'decl': d, 'errors': names[d['name']][:3]})
+                        c['decls'] = [d for d in c['decls'] if d['name'] not in names]
+                        write_crate(ws, cn, c)
+                    todo = sorted(bad)
+                fatal[g] = 'corpus still fails after dropping failing declarations'
+
+            import threading
+            ths = [threading.Thread(target=build_group, args=(g, cs)) for g, cs in groups.items()]
+            for t in ths:
+                t.start()
+            for t in ths:
+                t.join()
             for g in groups:
                 shutil.rmtree(os.path.join(sc, g + '-target'), ignore_errors=True)
             got = {}
+            newest = {}
             for fn in os.listdir(out):
                 if fn.endswith('.json'):
                     cn = fn.rsplit('-', 1)[0]
-                    shutil.move(os.path.join(out, fn), os.path.join(cd, f'mir-{cn}.json'))
-                    got[cn] = True
+                    p = os.path.join(out, fn)
+                    if cn not in newest or os.path.getmtime(p) > os.path.getmtime(newest[cn]):
+                        newest[cn] = p
+            for cn, p in newest.items():
+                shutil.move(p, os.path.join(cd, f'mir-{cn}.json'))
+                got[cn] = True
             # keep sources for replay/diagnostics
             for g, cs in groups.items():
                 for n in cs:
                     shutil.copy(os.path.join(sc, g, n, 'src', 'lib.rs'), os.path.join(cd, f'src-{n}.rs'))
-            info = {'built_s': round(time.time() - t0, 1), 'fails': {g: o[-6000:] for g, o in fails.items()},
+            info = {'built_s': round(time.time() - t0, 1), 'fails': fatal,
+                    'dropped': [{'crate': x['crate'], 'name': x['name'], 'errors': x['errors']} for x in dropped],
                     'crates': sorted(got)}
             with open(os.path.join(cd, 'mir-info.json'), 'w') as f:
                 json.dump(info, f)
             with open(marker, 'w') as f:
                 f.write('ok')
-            log(f'MIR facts built in {info["built_s"]}s; crates with facts: {len(got)}/{len(crates)}')
+            log(f'MIR facts built in {info["built_s"]}s; crates with facts: {len(got)}/{len(crates)}; dropped declarations: {len(dropped)}')
         info = json.load(open(os.path.join(cd, 'mir-info.json')))
+    # apply the recorded drops to the in-memory corpus (cache hit path) and recompute positions
+    if info.get('dropped'):
+        names = {(x['crate'], x['name']) for x in info['dropped']}
+        for x in info['dropped']:
+            for d in crates[x['crate']]['decls']:
+                if d['name'] == x['name']:
+                    x['decl'] = d
+        for cn, c in crates.items():
+            c['decls'] = [d for d in c['decls'] if (cn, d['name']) not in names]
+            corpus.crate_source(c)
     paths = {n: os.path.join(cd, f'mir-{n}.json') for n in crates if os.path.exists(os.path.join(cd, f'mir-{n}.json'))}
     return crates, paths, info
